@@ -295,8 +295,11 @@ func (h *c20Hist) variant(kr keyRef, cause string) {
 		a.head, a.get = &storage.HeadObjectOptions{IfMatchETag: &v1, IfNoneMatchETag: &v2}, &storage.GetObjectOptions{IfMatchETag: &v1, IfNoneMatchETag: &v2}
 		a.desc = "If-Match " + v1 + " If-None-Match " + v2
 	}
-	if variant == "aborted" && h.plain(kr, cause, []string{"get"}) {
-		return // the entry was already off before the aborted download: attributed to its cause
+	if variant == "aborted" && h.plain(kr, cause, []string{"head"}) {
+		// the cached head was already off before the aborted download: attributed to
+		// its cause. (Only Head is used for this pre-check: a Get would fill the
+		// body entry and the aborted download would never hit the fill path.)
+		return
 	}
 	x, y := h.pair(call, kr, variant, a)
 	ds := diffReads(x, y, call == "get")
